@@ -7,7 +7,7 @@ levels = {c["property_id"]: c["level"] for c in json.load(open("/verif/MANIFEST.
 try:
     man = json.load(open("/verif/MANIFEST.json"))
     for c in man.get("checks", man.get("properties", [])):
-        levels[c.get("property_id") or c.get("id")] = c.get("level_claimed", "")
+        levels[c.get("property_id") or c.get("id")] = (c.get("level_claimed") or {}).get("category", "")
 except Exception:
     pass
 def line(p, tier):
